@@ -109,11 +109,16 @@ class Groups:
             i += 1
         return seq('GSeq', out, 'GSkip')
 
+    def spec_set(self):
+        return ('member', ('index', ('member', ('id', self.spec), 'vp', False), ('id', self.dim)), 'covariant_classes', True)
+
     def covers(self, e):
         """spec.vp[dim]->covariant_classes contains covariant_class"""
         if not (self.spec and self.cc and self.dim):
             return False
-        S = ('member', ('index', ('member', ('id', self.spec), 'vp', False), ('id', self.dim)), 'covariant_classes', True)
+        S = self.spec_set()
+        if getattr(self, 'set_alias', None):
+            e = mc._subst_ids(e, {self.set_alias: S})      # const auto& accepted = spec.vp[dim]->covariant_classes;
         arg = [('id', self.cc)]
         find = ('call', ('member', S, 'find', False), arg)
         cnt = ('call', ('member', S, 'count', False), arg)
@@ -125,6 +130,9 @@ class Groups:
         k = st[0]
         if k == 'block':
             return self.stmts(st[1])
+        if k == 'decl' and len(st[2]) == 1 and st[1] in ('const auto &', 'auto &') and self.spec and self.dim and st[2][0][1] == self.spec_set():
+            self.set_alias = st[2][0][0]
+            return 'GSkip'
         if k == 'decl' and len(st[2]) == 1 and st[1] in ('auto &', 'group_map &'):
             name, init = st[2][0]
             if self.dim and init == ('index', ('id', self.groups), ('id', self.dim)) and self.dim_group is None:
@@ -167,9 +175,10 @@ class Groups:
 
 
 class Entries:
-    def __init__(self, arity_names, groups):
+    def __init__(self, arity_names, groups, mi_names=()):
         self.arity_names = arity_names
         self.groups = groups
+        self.mi_names = set(mi_names)      # const locals holding &m - &methods[0]
 
     def bad(self, msg, node):
         raise mc.Unsupported('build_dispatch_tables (v-table entries): %s: %s' % (msg, mc.show(node)[:300]))
@@ -205,7 +214,8 @@ class Entries:
                 ('expr', ('assign', '=', ('member', ent, 'group_index', False), ('id', gn)))}
         alt_mi = ('expr', ('assign', '=', ('member', ent, 'method_index', False), ('bin', '-', ('un', '&', M), call0(('id', 'methods'), 'data'))))
         canon_mi = ('expr', ('assign', '=', ('member', ent, 'method_index', False), ('bin', '-', ('un', '&', M), ('un', '&', ('index', ('id', 'methods'), ('num', 0))))))
-        got = {canon_mi if x == alt_mi else x for x in wb}
+        alts = [alt_mi] + [('expr', ('assign', '=', ('member', ent, 'method_index', False), ('id', nm))) for nm in self.mi_names]
+        got = {canon_mi if x in alts else x for x in wb}
         if len(wb) != 3 or got != want:
             self.bad('an entry is no longer written as (method_index = &m - &methods[0], vp_index = dim, group_index = group_num) at vtbl[m.slots[dim] - first_slot]', gb[0][3])
         return '(EForDims (EForGroups (EForGroupClasses EWriteEntry)))'
@@ -249,7 +259,9 @@ def main():
         ents = [st for st in lb[gi + 1:] if st[0] == 'for' and mc._mentions(st, 'vtbl')]
         if len(ents) != 1:
             raise mc.Unsupported('build_dispatch_tables: expected exactly one loop that writes v-table entries, found %d' % len(ents))
-        etext = Entries(arity_names, groups).loop(ents[0])
+        MI = ('bin', '-', ('un', '&', M), ('un', '&', ('index', ('id', 'methods'), ('num', 0))))
+        mi_names = [st[2][0][0] for st in lb if st[0] == 'decl' and st[1].startswith('const') and len(st[2]) == 1 and st[2][0][1] == MI]
+        etext = Entries(arity_names, groups, mi_names).loop(ents[0])
         # nothing else may write `groups` or a v-table
         for st in lb[gi + 1:]:
             if st is ents[0]:
